@@ -31,6 +31,11 @@ let rec pairs_bufs (t : string list) : z list list =
 
 let b1 s = (s = "1")
 
+(* byte strings in scripts are hex; "-" is the empty string *)
+let hexbytes (s : string) : z list =
+  if s = "-" then [] else
+  List.init (String.length s / 2) (fun i -> z_of_int (int_of_string ("0x" ^ String.sub s (2 * i) 2)))
+
 let parse_uop (t : string list) : uop =
   let (hd, tl) = split_colon t [] in
   match hd with
@@ -81,6 +86,15 @@ let parse_uop (t : string list) : uop =
   | ["rslv_cancel"; r] -> URslvCancel (zi r)
   | ["pcap_on"] -> UPcapOn
   | ["set_next_port"; n] -> USetNextPort (zi n)
+  | ["http_new"; srv; node; port; keep] -> UHttpNew (zi srv, zi node, zi port, b1 keep)
+  | ["http_fixed"; srv; path; len; seed] -> UHttpHandler (zi srv, hexbytes path, HFixed (zi len, zi seed))
+  | ["http_redirect"; srv; path; target] -> UHttpHandler (zi srv, hexbytes path, HRedirect (hexbytes target))
+  | ["http_content"; srv; path; size; seed] -> UHttpHandler (zi srv, hexbytes path, HContent (zi size, zi seed))
+  | ["http_stall"; srv; path] -> UHttpStall (zi srv, hexbytes path)
+  | ["http_stop"; srv] -> UHttpStop (zi srv)
+  | ["tcp_write_bytes"; s; data; h] -> UTcpWriteBytes (zi s, hexbytes data, zi h)
+  | ["tcp_read_raw"; s; bs; h] -> UTcpReadRaw (zi s, zi bs, zi h, false)
+  | ["tcp_read_loop"; s; bs; h] -> UTcpReadRaw (zi s, zi bs, zi h, true)
   | _ -> failwith ("bad op: " ^ String.concat " " t)
 
 let parse_sink (t : string list) : z * sink =
